@@ -25,6 +25,7 @@ THEOREMS = [
     "BeyondVerif.C02.const_matrices_orthonormal",
     "BeyondVerif.C02.const_matrices_invertible",
     "BeyondVerif.C02.providers_match",
+    "BeyondVerif.C02.kinematic_guard_pinned",
     "BeyondVerif.C02.expand_apply",
     "BeyondVerif.C02.expand_inv_mul",
     "BeyondVerif.C02.norm_preserved",
@@ -68,6 +69,7 @@ THEOREMS = [
     "BeyondVerif.R.lofTnw_derivAt",
     "BeyondVerif.C02.lof_velocity_defect",
     "BeyondVerif.C02.lof_velocity_iff",
+    "BeyondVerif.C02.lof_static_no_defect",
     "BeyondVerif.C02.lof_rate_planar",
     "BeyondVerif.C02.lof_rate_twobody",
     "BeyondVerif.C02.velocity_is_derivative",
@@ -336,6 +338,18 @@ def extract(ctx):
     if set(corr) != {"delta_psi", "delta_eps"}:
         raise py2lean.Untranslatable("_nutation: the eop_correction tail does not correct exactly delta_psi and delta_eps")
     parts.append(f"/-- what `_nutation(date, True, terms)` adds to (Δψ, Δε) of the series, degrees -/\ndef nutCorr80 (dpsi_mas deps_mas : R) : List R :=\n  [{corr['delta_psi']}, {corr['delta_eps']}]\n")
+    # the guard of the kinematic terms of the equation of the equinoxes: `if date.d >= 50506 and kinematic:` (operator and day from the AST)
+    eqx = py2lean.find_function(ast.parse(open(i80).read()), "equinox")
+    guards = [st.test for st in eqx.body if isinstance(st, ast.If)]
+    ops = {ast.GtE: "≥", ast.Gt: ">", ast.LtE: "≤", ast.Lt: "<"}
+    if not (len(guards) == 1 and isinstance(guards[0], ast.BoolOp) and isinstance(guards[0].op, ast.And) and len(guards[0].values) == 2
+            and isinstance(guards[0].values[0], ast.Compare) and ast.unparse(guards[0].values[0].left) == "date.d" and len(guards[0].values[0].ops) == 1
+            and type(guards[0].values[0].ops[0]) in ops and isinstance(guards[0].values[0].comparators[0], ast.Constant)
+            and ast.unparse(guards[0].values[1]) == "kinematic"):
+        raise py2lean.Untranslatable("equinox: the guard of the kinematic terms is not `date.d <cmp> <day> and kinematic`")
+    cmp_ = guards[0].values[0]
+    parts.append(f"/-- the guard of the kinematic terms of `iau1980.equinox`: `if {ast.unparse(guards[0])}:` -/\nabbrev equinoxKinematic (day : R) (kinematic : Bool) : Prop :=\n"
+                 f"  (day {ops[type(cmp_.ops[0])]} ({flit(cmp_.comparators[0].value) if isinstance(cmp_.comparators[0].value, float) else '(' + str(int(cmp_.comparators[0].value)) + ' : R)'})) ∧ kinematic = true\n")
     parts.append(py2lean.translate_slice(i80, "_sideral", ["t"], ["theta"], "gmstDeg80", stop_before=is_if))
     parts.append(py2lean.translate_function(i80, "rate", ["lod_ms"], "rate80", consts={"date.eop.lod": "lod_ms"}))
     parts.append(py2lean.translate_slice(i10, "_earth_orientation", ["ttt"], ["s_prime"], "sPrime10"))
@@ -356,8 +370,12 @@ def extract(ctx):
     ch = py2lean.instantiate(core.LEAN, "FrameFormulas", "\n".join(parts), "beyond/utils/matrix.py, beyond/frames/{iau1980,iau2010,orient,stations,local}.py",
                              imports=("Model.Mat3",))
     # the glue: loops of Orientation.convert_to / Center.convert_to, Center._to_parent, Frame.transform
-    if core.write_if_changed(os.path.join(core.LEAN, "BeyondVerif", "Generated", "FrameGlue.lean"), _Glue().text()):
-        ch.append("Generated/FrameGlue.lean")
+    glue_error = None
+    try:
+        if core.write_if_changed(os.path.join(core.LEAN, "BeyondVerif", "Generated", "FrameGlue.lean"), _Glue().text()):
+            ch.append("Generated/FrameGlue.lean")
+    except py2lean.Untranslatable as e:     # reported after everything else has been regenerated
+        glue_error = e
     # provider directions
     tree = ast.parse(open(ori).read())
     cls = py2lean.find_function(tree, "Orientation")
@@ -370,6 +388,8 @@ def extract(ctx):
     from harness.props import C20   # Generated/Graphs.lean (orientHist: the `+` operations of orient.py in execution order)
     ch += C20.extract(ctx) or []
     ch += instantiate.main()
+    if glue_error is not None:
+        raise glue_error
     return ch
 
 
@@ -1043,6 +1063,16 @@ def earth_rotation_checks(out, mode, scale, d, s, date, rec, via):
     if not np.abs(got - exp).max() <= 1e-9:
         out.fail("nutation-eop-correction" + hist, "iau1980.nutation(date) (EOP corrections included) is not the 1980 series plus dPsi, dEps of the record of the date",
                  inp, observed=got.tolist(), expected=exp.tolist())
+    # the kinematic terms of the equation of the equinoxes, isolated: equinox(kinematic=True) - equinox(kinematic=False) is
+    # 0.00264" sin Om + 0.000063" sin 2 Om from 1997-02-27 0h UTC (MJD 50506, that day included) on and 0 before (IERS TN 21).  The date was
+    # chosen by the IERS at a zero crossing of sin Om: on the very day the terms are ~5e-6", far below the 1 mas of the checks above.
+    kin = iau1980.equinox(date, eop_correction=False, kinematic=True) - iau1980.equinox(date, eop_correction=False, kinematic=False)
+    om = indep_nut80(t["ttt"], _t51[:1])[3]
+    kin_exp = (0.00264 * math.sin(om) + 0.000063 * math.sin(2 * om)) / 3600.0 if int(t["day"]) >= 50506 else 0.0
+    out.count(key=("kinematic", mode, scale, d, s, via), kind="kinematic-terms", side="from-50506" if int(t["day"]) >= 50506 else "before", **tag)
+    if not abs(kin - kin_exp) <= 1e-12:
+        out.fail("kinematic-terms" + (":switch-day" if abs(int(t["day"]) - 50506) <= 1 else "") + hist, "iau1980.equinox: the kinematic terms are not 0.00264\" sin Om + 0.000063\" sin 2 Om from MJD 50506 on (that day included) and 0 before",
+                 inp, observed=float(kin), expected=float(kin_exp))
     # CIRF->GCRF: the third column of the CIO matrix is (X, Y, .) with X = X_series(TT) + dX of the record: X - dX must be the same number
     # under every configuration that gives the text the same TT instant (it is the series alone)
     r, _ = blocks("CIRF", "GCRF")
@@ -1166,7 +1196,9 @@ def oracle(ctx, widened):
                 # 1e-6 m / 1e-9 m/s, plus the resolution of a double at the largest distance involved (Sun-centred: 1.5e11 m -> 3e-5 m)
                 big_r = max(np.abs(np.array(x)[:3]).max() for x in (svA, svB, svAC))
                 big_v = max(np.abs(np.array(x)[3:]).max() for x in (svA, svB, svAC))
-                tp, tv = 1e-6 + 4e-15 * big_r, 1e-9 + 4e-15 * (big_v + 7.3e-5 * big_r)  # Earth-fixed intermediate: |w x r|
+                # Earth-fixed intermediate: |w x r|; a local orbital frame that accounts for its own rate (1.3e-3 rad/s in LEO) likewise
+                w_max = 1.3e-3 if any(family_of("", f).split(":")[1].split("-")[-1] in ("QSW", "TNW") for f in (a, b, c)) else 7.3e-5
+                tp, tv = 1e-6 + 4e-15 * big_r, 1e-9 + 4e-15 * (big_v + w_max * big_r)
                 if not (np.all(np.isfinite(svABC)) and np.all(np.abs(svABC[:3] - svAC[:3]) <= tp) and np.all(np.abs(svABC[3:] - svAC[3:]) <= tv)):
                     out.fail(family_of("compose", a, b, c), "A->B->C differs from A->C", {"eop": mode, "date": str(date), "frames": [a, b, c], "state": list(map(float, svA))},
                              observed=list(map(float, svABC)), expected=list(map(float, svAC)))
@@ -1235,7 +1267,9 @@ def oracle(ctx, widened):
                     rho = np.array(sv0.copy(frame=b))[:3]
                     missing = -np.cross([0.0, 0.0, w3], rho)
                     out.count(key=("velterm", mode, b, str(date)), kind="velocity-lof-term", eop=mode, target=fam.split(":")[1], separation="far" if np.linalg.norm(rho) > 1e5 else "near")
-                    if not np.all(np.abs(fd - vel - missing) <= tol + 1e-9 * np.linalg.norm(rho)):
+                    tol_l = tol + 1e-9 * np.linalg.norm(rho)
+                    # either the rate of the frame is accounted for (fd = vel), or the discrepancy is exactly the term the theorem names
+                    if not (np.all(np.abs(fd - vel) <= tol_l) or np.all(np.abs(fd - vel - missing) <= tol_l)):
                         out.fail(fam.replace("velocity-derivative", "velocity-lof-term"), "in an orbit-attached local orbital frame the converted velocity differs from the derivative of the converted position "
                                  "by something else than the rotation term -w x rho of the frame (w = h/r^2 for QSW, mu h/(r^3 v^2) for TNW, along W): theorem C02.lof_velocity_defect",
                                  dict(inp, rho=list(map(float, rho)), w_lof=[0.0, 0.0, float(w3)]), observed=list(map(float, fd - vel)), expected=list(map(float, missing)))
@@ -1260,6 +1294,12 @@ def oracle(ctx, widened):
             offset_form_oracle(out, rng, 40 if big else 6)
         if mode in ("real", "zero", "missing"):
             attached_oracle(out, rng, scs, mode, 60 if big else 8)
+    # the days at which a branch of the providers switches, both sides, every run
+    set_eop("real")
+    for b_ in BRANCH_DAYS:
+        for d_ in (b_ - 1, b_, b_ + 1):
+            s_ = round(rng.uniform(100, 86000), 3)
+            earth_rotation_checks(out, "real", "UTC", d_, s_, Date(d_, s_), indep_record("real", d_ + s_ / 86400.0), "matrix")
     history_oracle(out, rng, big)
     reference_oracle(out, rng, big)
     # the same names registered again with another specification, the same instants before and after: "attached to X" follows the new X
@@ -1454,7 +1494,7 @@ class Visit:
     internals before them — then what the model is given is collected: the date arguments as a pure function of the TEXT of the
     date and the independently known EOP record of the current configuration (`pure_times`), the frame specification at the date."""
 
-    def __init__(self, out, rng, sc, mode, scale, d, s, s_utc, date, nconv, nxf, kind, orient_only=None, twice=False, ncen=0):
+    def __init__(self, out, rng, sc, mode, scale, d, s, s_utc, date, nconv, nxf, kind, orient_only=None, twice=False, ncen=0, pairs=()):
         import numpy as np
         from beyond.frames import iau1980, iau2010
         from beyond.frames.frames import get_frame
@@ -1468,9 +1508,10 @@ class Visit:
         if orient_only is not None:
             byori = {k: v for k, v in byori.items() if k in orient_only}
         last = None
-        for _ in range(nconv):
-            fa, fb = byori[rng.choice(list(byori))], byori[rng.choice(list(byori))]
-            if last is not None and rng.random() < 0.15:
+        todo = [(byori[sc.idx[na]], byori[sc.idx[nb]]) for na, nb in pairs] + [None] * nconv      # named pairs first (branch days), then random ones
+        for want in todo:
+            fa, fb = want or (byori[rng.choice(list(byori))], byori[rng.choice(list(byori))])
+            if want is None and last is not None and rng.random() < 0.15:
                 fa, fb = last                                   # the same request again
             last = (fa, fb)
             try:
@@ -1663,6 +1704,15 @@ def correspondence(ctx):
         for _ in range(ctx.n(14, 600) if mode == "real" else ctx.n(5, 150) if mode in ("zero", "missing") else ctx.n(3, 80)):
             d, s = rand_ds(rng) if rng.random() < 0.9 or mode in ("altdb", "patched") else rand_ds(rng, 57800, 58800)
             visits.append(Visit(out, rng, rng.choice(scs), mode, "UTC", d, s, s, Date(d, s), 4, 6, "fresh", ncen=2))
+    # A1b. the days at which a branch of the providers switches (iau1980.equinox: kinematic terms from MJD 50506 on), both sides, every run,
+    # through the edges that read it.  The model's guard is read from the AST and pinned by C02.kinematic_guard_pinned: a disagreement
+    # here is a deviation of the code from the pinned convention, reported with its input.
+    set_eop("real")
+    for b in BRANCH_DAYS:
+        for d in (b - 1, b, b + 1):
+            s_ = round(rng.uniform(100, 86000), 3)
+            visits.append(Visit(out, rng, scs[0], "real", "UTC", d, s_, s_, Date(d, s_), 0, 0, "branch-day",
+                                pairs=[("PEF", "TOD"), ("TOD", "PEF"), ("ITRF", "EME2000"), ("TEME", "PEF"), ("GCRF", "ITRF")]))
     # A2. the SAME instants under all five configurations in one process, varying orders, repeated requests: UTC texts (TAI-UTC, hence the
     # TT instant of the text, differs under 'missing') and TAI texts.  The model is asked call by call, statelessly: by the theorem
     # session_history_independent the history does not matter.
@@ -1751,7 +1801,7 @@ def correspondence(ctx):
         ctoks = [str(len(chist))] + [str(x) for h in chist for x in h] + [str(len(v.cl))] + [t for c, (par, o, off) in v.cl.items() for t in [str(c), str(par), str(o)] + fl(off)]
         for fa, fb, res in v.conv:
             reqs.append(" ".join(["c02conv"] + D + htoks + etoks + [str(fa[1]), str(fb[1])]))
-            post.append(("convert", {"eop": v.mode, "date": v.text, "history": v.kind, "a": fa[0], "b": fb[0], "record": v.rec}, res, 1e-10, 1e-13))
+            post.append(("convert", {"eop": v.mode, "date": v.text, "history": v.kind, "a": fa[0], "b": fb[0], "record": v.rec}, res, 1e-12, 1e-14))     # observed agreement: a few ulp (same libm, same order of operations)
         for ga, gb, gt, res in v.cen:
             reqs.append(" ".join(["c02cen"] + D + htoks + etoks + ctoks + [str(ga[2]), str(gb[2]), str(gt[1])]))
             inp = {"eop": v.mode, "date": v.text, "history": v.kind, "from_centre_of": ga[0], "to_centre_of": gb[0], "in_orientation_of": gt[0], "record": v.rec}
@@ -1820,7 +1870,11 @@ def correspondence(ctx):
             if not ok:
                 out.fail("model-" + kind, ("Center.convert_to" if kind == "centre" else "Frame.transform") + " differs between the implementation and the Lean model", inp, observed=[float(x) for x in real], expected=model)
         else:
-            model = cmp_floats(out, "model-" + kind, kind, inp, real, rep, rtol=rtol, atol=atol)
+            n_before = len(out.failures)
+            model = cmp_floats(out, "model-" + kind + (":branch-day" if inp.get("history") == "branch-day" else ""), kind, inp, real, rep, rtol=rtol, atol=atol)
+            if inp.get("history") == "branch-day":
+                for f in out.failures[n_before:]:
+                    f["violates_property"] = True      # the model side is pinned by a theorem to the published convention
         out.sample({"request": req[:100] + "…", "impl": [float(x) for x in real][:6], "model": (model or [])[:6]}, limit=3)
     return out
 
